@@ -24,7 +24,7 @@ from ..logic import atoms_of, equivalent, f_and, f_not, f_or, fstr, implies, to_
 from ..pm import pmatch
 from ..pyfacts import loops, py_guard
 from ..report import Ctx
-from ..stage import Effect, Jump, Raise, Return, Store
+from ..stage import Effect, Jump, MethodCall, Raise, Return, Store
 from ..term import subterms, tstr
 from .core import A, MANAGER, _fn
 
@@ -64,21 +64,27 @@ def simultaneous_groups(ctx: Ctx, pid: str):
     # ---- pairs --------------------------------------------------------------------------------------------------------
     pairs = [(ex, e) for ex, e in effects if pmatch("Q_s.add(frozenset({Q_a, Q_b}))", e.call) is not None]
     ctx.floor(rule, "pair insertions", len(pairs), 1, fn.site)
-    ex, e = pairs[0]
-    m = pmatch("Q_s.add(frozenset({Q_a, Q_b}))", e.call)
-    sim_set = m["s"]
-    lp = loops(e)
-    ok = len(lp) == 3 and _elems(lp[0][1]) and lp[1][1] == ("a", lp[0][0][0], "simultaneous_list")
+    ok = True
+    for ex, e in pairs:
+        m = pmatch("Q_s.add(frozenset({Q_a, Q_b}))", e.call)
+        sim_set = m["s"]
+        lp = loops(e)
+        ok1 = len(lp) == 3 and _elems(lp[0][1]) and lp[1][1] == ("a", lp[0][0][0], "simultaneous_list")
+        if ok1:
+            el, se, pr = lp[0][0][0], lp[1][0][0], lp[2][0][0]
+            mp = pmatch("product(Q_x, Q_y)", lp[2][1])
+            ok1 = mp is not None and _tf(mp["x"], el) and _tf(mp["y"], se) and {m["a"], m["b"]} == {("i", pr, ("c", 0)), ("i", pr, ("c", 1))}
+        ok = ok and ok1
     indep_tab = None
-    if ok:
-        el, se, pr = lp[0][0][0], lp[1][0][0], lp[2][0][0]
-        mp = pmatch("product(Q_x, Q_y)", lp[2][1])
-        ok = mp is not None and _tf(mp["x"], el) and _tf(mp["y"], se) and {m["a"], m["b"]} == {("i", pr, ("c", 0)), ("i", pr, ("c", 1))}
-    ctx.check(ok and len(pairs) == 1, rule + ".pairs", e.site, "_simultaneous.pairs", found=f"{tstr(e.call)} over {[tstr(l[1])[:90] for l in lp]}",
+    ctx.check(ok and len({e.site for _, e in pairs}) == 1, rule + ".pairs", e.site, "_simultaneous.pairs", found=f"{tstr(e.call)} over {[tstr(l[1])[:90] for l in lp]}",
               required="{t1, t2} for every body, every simultaneous partner of it and every (t1, t2) in transactions_for(body) x transactions_for(partner)")
     # the only way a pair is not recorded is the 'unsatisfiable' error
     g = py_guard(e)
     raises = [(x, r) for x, r in fn.facts(Raise) if len(loops(r)) == 3 and loops(r)[2][1] == lp[2][1]] if ok else []
+    if ok and not raises:
+        # the raise was unrolled in another configuration than the insertion looked at last: same loop nest, other binders
+        cand = [(x, r) for x, r in fn.facts(Raise) if len(loops(r)) == 3 and _elems(loops(r)[0][1]) and pmatch("product(Q_x, Q_y)", loops(r)[2][1]) is not None]
+        raises = cand[:1] if len({r.site for _, r in cand}) == 1 else cand
     okr = False
     if ok and len(raises) == 1:
         r = raises[0][1]
@@ -105,6 +111,14 @@ def simultaneous_groups(ctx: Ctx, pid: str):
             continue
         la = loops(a)
         detail = f"{tstr(a.call)} over {[tstr(l[1])[:120] for l in la]}"
+        if len(la) == 3 and _elems(la[0][1]):
+            okb, exempt = _independents_by_group(fn, x, a, la, mi)
+            if okb:
+                okI = True
+                ctx.__dict__["_nonexclusive_callers_exempt"] = exempt
+                detail += f"; skipped if {fstr(f_not(py_guard(a)))}"
+                break
+            continue
         if len(la) != 2 or not _elems(la[0][1]) or py_guard(a) is not True:
             continue
         el2, pr2 = la[0][0][0], la[1][0][0]
@@ -154,12 +168,29 @@ def simultaneous_groups(ctx: Ctx, pid: str):
             continue
         tr_set = pmatch("Q_s.add(Q_g)", recs[0].call)["s"]
         # skip test: already known, or contains two independent members
-        skips = [j for _, j in fn.facts(Jump, lambda j: j.kind == "continue")]
+        # the `continue` of the worklist loop: the one whose test looks the group up among the recorded ones
+        # (object numbers differ between configurations that part before the set is created: compare the constructors)
+        def _same_set(jx, s):
+            return s == tr_set or (s[0] == "obj" and jx.obj(s) is not None and x.obj(tr_set) is not None and jx.obj(s).ctor == x.obj(tr_set).ctor
+                                   and getattr(jx.obj(s), "site", None) == getattr(x.obj(tr_set), "site", None))
+
+        skips = []
+        for jx, j in fn.facts(Jump, lambda j: j.kind == "continue"):
+            for t in atoms_of(py_guard(j)):
+                mk = pmatch("Q_g in Q_s", t)
+                if mk is not None and mk["g"] == new and _same_set(jx, mk["s"]):
+                    skips.append((jx, j, mk["s"]))
+        if skips:
+            tr_set_j = skips[0][2]
+            indep_j = None
+            skips = [skips[0][1]]
+        else:
+            tr_set_j = tr_set
         oks = False
         if skips:
             gs = py_guard(skips[0])
             ats = atoms_of(gs)
-            known = [t for t in ats if pmatch("Q_g in Q_s", t) == {"g": new, "s": tr_set}]
+            known = [t for t in ats if pmatch("Q_g in Q_s", t) == {"g": new, "s": tr_set_j}]
             rest = [t for t in ats if t not in known]
             okconf = False
             if len(known) == 1 and len(rest) == 1:
@@ -267,6 +298,175 @@ def simultaneous_groups(ctx: Ctx, pid: str):
         okF = len(confl) == 1 and len(part) == 1 and implies(f, f_and(f_not(A(confl[0])), A(part[0]))) is None
     ctx.check(okF, rule + ".relations-removed", fn.site, "_simultaneous.relation-filter", found=detail,
               required="a relation is removed only if it is not a conflict and its end is a simultaneous partner of the body it is declared on")
+
+
+def _independents_by_group(fn, ex, a, la, mi):
+    """The independence table filled group by group: L = [transactions_for(b) for b in [e] + e.independent_list],
+    for (k1, k2) in range(len(L))^2, for (t1, t2) in L[k1] x L[k2]: independents[t1].add(t2) - all pairs, except possibly
+    the pairs among the callers of e itself (k1 = k2 = 0) when e is nonexclusive (F27).
+    Returns (shape recognised and complete, exemption present)."""
+    el, kk, pr = la[0][0][0], la[1][0][0], la[2][0][0]
+    mk = pmatch("product(range(len(Q_l)), repeat=2)", la[1][1])
+    if mk is None or {mi["a"], mi["b"]} != {("i", pr, ("c", 0)), ("i", pr, ("c", 1))}:
+        return False, False
+    lst = ex.vardef(mk["l"]) or mk["l"]
+    if lst[0] != "lc" or len(lst[3]) != 1:
+        return False, False
+    b, it, conds = lst[3][0]
+    b = b[0] if isinstance(b, tuple) and b and isinstance(b[0], tuple) else b
+    mf = pmatch("frozenset(Q_t)", lst[2])
+    mc = pmatch("chain([Q_e], Q_e.independent_list)", it)
+    if not (mf is not None and _tf(mf["t"], b) and mc is not None and mc["e"] == el and not conds):
+        return False, False
+    mp = pmatch("product(Q_x, Q_y)", la[2][1])
+    if mp is None:
+        return False, False
+    want = {("i", mk["l"], ("i", kk, ("c", 0))), ("i", mk["l"], ("i", kk, ("c", 1)))}
+    want2 = {("i", lst, ("i", kk, ("c", 0))), ("i", lst, ("i", kk, ("c", 1)))}
+    if {mp["x"], mp["y"]} not in (want, want2) or mp["x"] == mp["y"]:
+        return False, False
+    from ..term import mk_op
+
+    first = [A(mk_op("==", ("i", kk, ("c", k)), ("c", 0))) for k in (0, 1)]
+    nonex = A(("a", el, "nonexclusive"))
+    exemption = f_and(nonex, *first)
+    g = py_guard(a)
+    # a `continue` in the loop over (k1, k2) does not show in the frames of the insertion: look at the jumps of this configuration
+    # (of any configuration: the insertion and the jump that skips it are never in the same one)
+    jumps = []
+    for jx in fn.exs:
+        for j in jx.of(Jump):
+            if j.kind in ("continue", "break") and [l[1] for l in loops(j)] == [l[1] for l in la[:2]] and py_guard(j) not in [py_guard(k) for k in jumps]:
+                jumps.append(j)
+    if g is True and not jumps:
+        return True, False
+    if g is True and len(jumps) == 1 and jumps[0].kind == "continue" and equivalent(py_guard(jumps[0]), exemption) is None:
+        return True, True
+    if not jumps and equivalent(g, f_not(exemption)) is None:
+        return True, True
+    return False, False
+
+
+def nonexclusive_callers_mergeable(ctx: Ctx, pid: str):
+    """F27 (acceptance clause of C11): transactions calling the same *nonexclusive* method are not independent alternatives -
+    they neither conflict nor double-call when merged - so requiring them to be simultaneous (a nonexclusive method called in
+    a body and in one of its condition() branches) is not an error."""
+    simultaneous_groups(ctx, pid)
+    fn = _fn(ctx, MANAGER, "TransactionManager._simultaneous", pid)
+    ctx.check(ctx.__dict__.get("_nonexclusive_callers_exempt") is True, f"{pid}.nonexclusive-callers-mergeable", fn.site, "_simultaneous.independents.nonexclusive",
+              found="the callers of a nonexclusive method are " + ("exempt" if ctx.__dict__.get("_nonexclusive_callers_exempt") else "made pairwise independent like those of an exclusive one"),
+              required="the pairs among the callers of a body itself are skipped when the body is nonexclusive (pairs involving its independent_list are kept)")
+
+
+def retired_stay(ctx: Ctx, pid: str):
+    """F28: a transaction that is retired from the plain list (it may only run inside a merged transaction) stays in the
+    design as a method - whether or not it ended up in a group - so that its relations (the ready dependency of the bodies
+    nested in it) are still seen: the loop that wraps transactions into methods ranges over the same set the retiring
+    filter tests."""
+    rule = f"{pid}.simultaneous-retired-stay"
+    fn = _fn(ctx, MANAGER, "TransactionManager._simultaneous", rule)
+    def retired_set(x):
+        # (per configuration: object numbers differ between configurations)
+        for s in x.of(Store):
+            if s.target == ("a", ("self",), "transactions") and s.aug is None:
+                mf = pmatch("list(filter(Q_p, self.transactions))", s.value)
+                lt = _lam(x, mf["p"]) if mf else None
+                if lt is not None and lt[0] == 1:
+                    ats = atoms_of(to_formula(lt[1]))
+                    mi = pmatch("Q_t._body in Q_all", ats[0]) if len(ats) == 1 else None
+                    if mi is not None:
+                        return mi["all"]
+        return None
+
+    wraps = [(x, e) for x, e in fn.facts(Effect) if pmatch("Q_m._set_impl(Q_t)", e.call) is not None and loops(e)]
+    ctx.floor(rule, "transactions wrapped into methods", len(wraps), 1, fn.site)
+    ok = True
+    detail = ""
+    for x, e in wraps:
+        allset = retired_set(x)
+        if allset is None:
+            ok = False
+            detail = "retiring filter not recognised"
+            continue
+        m = pmatch("Q_m._set_impl(Q_t)", e.call)
+        lp = loops(e)
+        it = x.vardef(lp[0][1]) or lp[0][1]
+        reg = [r for r in x.of(Effect) if pmatch("self.methods.append(Q_m)", r.call) == {"m": m["m"]} and loops(r) == lp and py_guard(r) is True]
+        ok1 = len(lp) == 1 and m["t"] == lp[0][0][0] and lp[0][1] == allset and py_guard(e) is True and bool(reg)
+        ok = ok and ok1
+        detail = f"{tstr(e.call)} for {tstr(lp[0][0][0])} in {tstr(it)[:120]}; registered: {bool(reg)}; retired set: {tstr(allset) if allset else '?'}"
+    ctx.check(ok, rule, wraps[0][1].site, "_simultaneous.wrapped-transactions", found=detail,
+              required="every transaction taken out of the plain list is wrapped into a method and appended to self.methods (also when it is in no "
+                       "group: it never runs, but the bodies nested in it must stay blocked by it)")
+
+
+def _enclosing_missing_atom(x, a, gb) -> bool:
+    """a == any(not group & frozenset(transactions_for(dep)) for t in group for dep in ready_dependencies[t] if dep in t.simultaneous_list)
+    for the group bound by `gb` (None: any binder), ready_dependencies being the result of self._ready_dependencies."""
+    ma = pmatch("any(Q_g)", a)
+    if ma is None or ma["g"][0] != "lc" or len(ma["g"][3]) != 2:
+        return False
+    (tb, tit, tc), (db, dit, dc) = ma["g"][3]
+    tb = tb[0] if isinstance(tb, tuple) and tb and isinstance(tb[0], tuple) else tb
+    db = db[0] if isinstance(db, tuple) and db and isinstance(db[0], tuple) else db
+    grp = tit
+    md = pmatch("Q_rd[Q_t]", dit)
+    if (gb is not None and grp != gb) or tc or md is None or md["t"] != tb:
+        return False
+    if len(dc) != 1 or pmatch("Q_d in Q_t.simultaneous_list", dc[0]) != {"d": db, "t": tb}:
+        return False
+    rdo = x.vardef(md["rd"]) or md["rd"]
+    if pmatch("self._ready_dependencies(Q_mm)", rdo) is None:
+        return False
+    elt = ma["g"][2]
+    if not (elt[0] == "op" and elt[1] == "not" and len(elt) == 3):
+        return False
+    inter = elt[2]  # a set intersection, not a conjunction: read structurally
+    if not (inter[0] == "op" and inter[1] == "&" and len(inter) == 4 and grp in inter[2:]):
+        return False
+    other = [t for t in inter[2:] if t != grp]
+    mo = pmatch("frozenset(Q_t)", other[0]) if len(other) == 1 else None
+    return mo is not None and _tf(mo["t"], db)
+
+
+def group_has_enclosing(ctx: Ctx, pid: str):
+    """F29: a merged transaction is built for a group only if, for every member and every body the member is both
+    ready-dependent on and simultaneous with (the body enclosing a condition() branch), the group contains a transaction
+    that runs that body.  Decided per configuration of `_simultaneous`: the group loop is left (`continue`) exactly under
+    that test, and the members are called exactly in the configurations where the test is false."""
+    rule = f"{pid}.simultaneous-group-has-enclosing"
+    fn = _fn(ctx, MANAGER, "TransactionManager._simultaneous", rule)
+    calls = [(x, c) for x, c in fn.facts(MethodCall) if len(loops(c)) == 2]
+    ctx.floor(rule, "member calls", len(calls), 1, fn.site)
+    skips = []
+    for x, j in fn.facts(Jump, lambda j: j.kind == "continue"):
+        lp = loops(j)
+        if len(lp) != 1:
+            continue
+        g = py_guard(j)
+        for a in atoms_of(g):
+            if _enclosing_missing_atom(x, a, lp[0][0][0]) and equivalent(g, A(a)) is None:
+                skips.append((x, j, a))
+    ok = bool(skips)
+    detail = f"{len(skips)} group-level skip(s) with that test"
+    n_true = n_false = 0
+    for x in fn.exs:
+        dec = [v for t, v in x.config if _enclosing_missing_atom(x, t, None)]
+        member_calls = [c for c in x.of(MethodCall) if len(loops(c)) == 2]
+        if not dec:
+            continue
+        if dec[-1]:
+            n_true += 1
+            ok = ok and not member_calls
+        else:
+            n_false += 1
+            ok = ok and bool(member_calls)
+    ok = ok and n_true >= 1 and n_false >= 1
+    detail += f"; configurations: test true {n_true} (no member called), test false {n_false} (members called)"
+    ctx.check(ok, rule, (skips[0][1].site if skips else calls[0][1].site), "_simultaneous.group-filter", found=detail,
+              required="a group is built iff every member's enclosing simultaneous body (a ready dependency that is also a simultaneous partner) is run by "
+                       "some transaction of the group: skip if any(not group & transactions_for(dep) for t in group for dep in ready_dependencies[t] "
+                       "if dep in t.simultaneous_list)")
 
 
 def _conflicting(t, group, tab) -> bool:
